@@ -36,14 +36,15 @@ var fileSym = []string{"b0", "b1", "b2", "h1", "h2", "b3"}
 var isBuild = []bool{true, true, true, false, false, true}
 
 type graph struct {
-	Edges [][2]int `json:"edges"` // (from, to): file `from` has a load statement for file `to`, in this order
+	Short bool     `json:"short_labels"` // BUILD files are loaded by their package label ("//p1") instead of "//p1:BUILD.dawn"
+	Edges [][2]int `json:"edges"`        // (from, to): file `from` has a load statement for file `to`, in this order
 	NPkg  int      `json:"packages"`
 	Name  string   `json:"name"`
 }
 
 func (g graph) String() string {
 	var b strings.Builder
-	fmt.Fprintf(&b, "%s pkgs=%d:", g.Name, g.NPkg)
+	fmt.Fprintf(&b, "%s pkgs=%d short=%v:", g.Name, g.NPkg, g.Short)
 	for _, e := range g.Edges {
 		fmt.Fprintf(&b, " %s>%s", fileSym[e[0]], fileSym[e[1]])
 	}
@@ -122,7 +123,11 @@ func (g graph) write(root string) {
 		}
 		var b strings.Builder
 		for _, j := range g.out(i) {
-			fmt.Fprintf(&b, "load(%q, %q)\n", fileLabel[j], fileSym[j])
+			lbl := fileLabel[j]
+			if g.Short && isBuild[j] && strings.HasSuffix(lbl, ":BUILD.dawn") && lbl != "//:BUILD.dawn" {
+				lbl = strings.TrimSuffix(lbl, ":BUILD.dawn") // the package's default module
+			}
+			fmt.Fprintf(&b, "load(%q, %q)\n", lbl, fileSym[j])
 		}
 		fmt.Fprintf(&b, "%s = %d\n", fileSym[i], i)
 		if isBuild[i] {
@@ -289,6 +294,16 @@ func curated() []graph {
 		G("build-loads-build", 3, E(b0, b1), E(b1, b2)),
 		G("build-loads-build-and-helper", 3, E(b0, b1), E(b1, h1), E(b2, h1), E(h1, h2)),
 		G("two-builds-load-third", 3, E(b0, b2), E(b1, b2), E(b2, h1)),
+		func() graph {
+			g := G("build-loads-build-by-package-label", 3, E(b0, b1), E(b1, b2))
+			g.Short = true
+			return g
+		}(),
+		func() graph {
+			g := G("two-builds-load-third-by-package-label", 3, E(b0, b2), E(b1, b2))
+			g.Short = true
+			return g
+		}(),
 		G("self-load-build", 2, E(b0, b0)),
 		G("self-load-helper", 2, E(b0, h1), E(h1, h1), E(b1, h1)),
 		G("2cycle-helpers", 2, E(b0, h1), E(h1, h2), E(h2, h1)),
